@@ -103,11 +103,18 @@ def rule_decode(ctx):
             if isinstance(node, ast.Call) and isinstance(node.func, ast.Attribute) and node.func.attr in ("decode", "encode"):
                 n += 1
                 codec = None
-                if node.args and isinstance(node.args[0], ast.Constant):
-                    codec = node.args[0].value
+
+                def const_of(e_):
+                    if isinstance(e_, ast.Constant):
+                        return e_.value
+                    v_ = p.const_value(fi.module, e_)  # a module-level constant such as ENCODING = "latin1"
+                    return v_ if isinstance(v_, str) else None
+
+                if node.args:
+                    codec = const_of(node.args[0])
                 for k in node.keywords:
-                    if k.arg == "encoding" and isinstance(k.value, ast.Constant):
-                        codec = k.value.value
+                    if k.arg == "encoding":
+                        codec = const_of(k.value)
                 ok = isinstance(codec, str) and codec.lower() in B.LATIN1
                 ctx.check(ok, "C02.DECODE", fi.short, f"codec {codec!r} is total and byte-wise", f"the wire codec is {codec!r}: a multi-byte or partial codec can raise on some byte strings and makes decoding depend on where the stream is cut", fi=fi, node=node)
     ctx.floor("C02.DECODE", "codec call sites", n, 3)
